@@ -62,6 +62,35 @@ def spec_facts(key):
     return fields, consts
 
 
+def check_encoder(ck, F, rule, enc, ops):
+    """R1: opcode table and encoder rows against the ISA; returns {row key: (fields, consts, row)}"""
+    # ---- R1 opcode table
+    for v, n in sorted(SPEC["opcodes"].items()):
+        ck.ob(rule, "opcode:" + v, ops.get(v) == n, "opcode(%s) = %s (ISA: %d)" % (v, ops.get(v), n), "src/ast/sim.rs")
+    ck.ob(rule, "opcode:set", set(ops) == set(SPEC["opcodes"]), "variants with an opcode: %s" % sorted(ops), "src/ast/sim.rs")
+
+    # ---- R1 encoder rows vs ISA
+    enc_by_key = {}
+    for r in enc:
+        key = row_key(r["variant"], r["sub"])
+        where = "src/ast/sim.rs:%s" % r["line"]
+        if key in enc_by_key:
+            ck.fail(rule, "enc-dup:" + key, "two encoder rows for %s" % key, where)
+        fields, consts, problems = enc_facts(r)
+        enc_by_key[key] = (fields, consts, r)
+        ck.ob(rule, "enc-shape:" + key, not problems, "; ".join(problems) or "ranges partition the word, widths match operand types", where)
+        if key not in SPEC["formats"]:
+            ck.fail(rule, "enc-spec:" + key, "row %s is not an ISA format" % key, where)
+            continue
+        sf, sc = spec_facts(key)
+        ck.ob(rule, "enc-spec:" + key, fields == sf and consts == sc,
+              "encoder fields %s consts %s vs ISA fields %s consts %s" % (sorted(fields), consts, sorted(sf), sc), where,
+              sample={"row": key, "fields": sorted(map(list, fields)), "const_bits": consts})
+    ck.ob(rule, "enc-rows:set", set(enc_by_key) == set(SPEC["formats"]), "encoder rows: %s" % sorted(enc_by_key), "src/ast/sim.rs")
+
+    return enc_by_key
+
+
 def run(ck, ctx):
     F = ctx.F
     panics.FACTS = F
@@ -84,29 +113,7 @@ def run(ck, ctx):
     ck.floor("C06.1", "opcode rows", len(ops), 15)
     ck.floor("C06.2", "decoder arms", len(dec["arms"]), 15)
 
-    # ---- R1 opcode table
-    for v, n in sorted(SPEC["opcodes"].items()):
-        ck.ob("C06.1", "opcode:" + v, ops.get(v) == n, "opcode(%s) = %s (ISA: %d)" % (v, ops.get(v), n), "src/ast/sim.rs")
-    ck.ob("C06.1", "opcode:set", set(ops) == set(SPEC["opcodes"]), "variants with an opcode: %s" % sorted(ops), "src/ast/sim.rs")
-
-    # ---- R1 encoder rows vs ISA
-    enc_by_key = {}
-    for r in enc:
-        key = row_key(r["variant"], r["sub"])
-        where = "src/ast/sim.rs:%s" % r["line"]
-        if key in enc_by_key:
-            ck.fail("C06.1", "enc-dup:" + key, "two encoder rows for %s" % key, where)
-        fields, consts, problems = enc_facts(r)
-        enc_by_key[key] = (fields, consts, r)
-        ck.ob("C06.1", "enc-shape:" + key, not problems, "; ".join(problems) or "ranges partition the word, widths match operand types", where)
-        if key not in SPEC["formats"]:
-            ck.fail("C06.1", "enc-spec:" + key, "row %s is not an ISA format" % key, where)
-            continue
-        sf, sc = spec_facts(key)
-        ck.ob("C06.1", "enc-spec:" + key, fields == sf and consts == sc,
-              "encoder fields %s consts %s vs ISA fields %s consts %s" % (sorted(fields), consts, sorted(sf), sc), where,
-              sample={"row": key, "fields": sorted(map(list, fields)), "const_bits": consts})
-    ck.ob("C06.1", "enc-rows:set", set(enc_by_key) == set(SPEC["formats"]), "encoder rows: %s" % sorted(enc_by_key), "src/ast/sim.rs")
+    enc_by_key = check_encoder(ck, F, "C06.1", enc, ops)
 
     # ---- R2 decoder vs encoder
     seen = set()
